@@ -107,12 +107,12 @@ Qed.
 Record atree := ATree { at_bf : N; at_l : kvl; at_s : N; at_kind : N }.
 Definition aworld2 := (list (N * atree) * list (N * atree))%type.   (* trees, captured roots *)
 
-Inductive aobs2 := BFail (c : N) | BOk | BVal (v : option val) | BNum (n : N) | BList (l : kvl) | BRoot (size : N) | BDiff (l : list dobs).
+Inductive aobs2 := BFail (c : N) | BOk | BVal (v : option val) | BNum (n : N) | BList (l : kvl) | BRoot (size : N) | BDiff (l : list dobs) | BEntry (e : option (key * val)).
 
 Definition pobs (o : obs) : aobs2 :=
   match o with
   | ObFail c => BFail c | ObOk => BOk | ObVal v => BVal v | ObNum n => BNum n | ObList l => BList l
-  | ObRoot r => BRoot (r_size r) | ObDiff l => BDiff l | _ => BFail 9
+  | ObRoot r => BRoot (r_size r) | ObDiff l => BDiff l | ObEntry e => BEntry e | _ => BFail 9
   end.
 
 Definition sdiff_obs (lo ln : kvl) : list dobs := flat_map dobs_of (sdiff key val kcmp bytes_eqb lo ln).
